@@ -329,7 +329,15 @@ def shrink(harness, driver, result, still_bad, max_rounds=40):
             rs = evaluate(driver, lines, timeout=600)
         except Exception:
             break
-        nxt = next((r for r in rs if still_bad(r) and len(r['case']) < len(cur['case'])), None)
+        # a candidate counts only if it fails the way the original did: the same kind of verdict (the text
+        # of the reason up to the first digit / brace) and no crash of the harness on a case the removal of
+        # elements made malformed, unless the original was a crash
+        def kind(r):
+            return re.split(r'[0-9{(]', r.get('why') or '', 1)[0][:60]
+        def crashed(r):
+            return ' => crash:' in r['case'] or r.get('model', '').startswith('bad') or r.get('model', '').startswith('driver-crash')
+        nxt = next((r for r in rs if still_bad(r) and len(r['case']) < len(cur['case']) and kind(r) == kind(result)
+                    and (crashed(result) or not crashed(r))), None)
         if nxt is None:
             break
         cur = nxt
@@ -501,11 +509,13 @@ def check(pid, cfg, tier, seed, tmp, args, t0):
 
     if new_fails:
         r0 = min(new_fails, key=lambda r: len(r['case']))
+        unshrunk = r0
         if harness and driver and not r0.get('proc'):
             r0 = shrink(harness, driver, r0, lambda r: r['spec'] == 'FAIL' and not any(finding_matches(f, r) for f in findings))
         path = write_replay(pid, 'failing-input', dict(
             case=r0['case'], implementation_answer=r0['case'].split(' => ')[-1], model_answer=r0['model'],
             spec_verdict=r0['why'], proc=r0.get('proc'), how='bin/check %s --replay <this file>' % pid,
+            original_case=unshrunk['case'][:2000000] if unshrunk is not r0 else None, original_verdict=unshrunk['why'],
             others=[r['case'][:500] for r in new_fails[:5]], count=len(new_fails)))
         violations.append((path, ''))
     elif new_diffs or broken:
@@ -555,8 +565,11 @@ def check(pid, cfg, tier, seed, tmp, args, t0):
         ),
         assumptions=cfg.get('assumptions', []),
         wall_s=round(time.time() - t0, 2), violations=len(violations))
-    os.makedirs(os.path.join(VERIF, 'evidence'), exist_ok=True)
-    json.dump(ev, open(os.path.join(VERIF, 'evidence', pid + '.json'), 'w'), indent=1)
+    # evidence/<id>.json describes runs against /repo itself; a run against another tree (VERIF_REPO,
+    # used to try seeded changes) is recorded apart and never committed
+    evdir = 'evidence' if os.path.realpath(REPO) == '/repo' else os.path.join('replays', 'evidence-other-tree')
+    os.makedirs(os.path.join(VERIF, evdir), exist_ok=True)
+    json.dump(ev, open(os.path.join(VERIF, evdir, pid + '.json'), 'w'), indent=1)
 
     for l in known_lines:
         print(l)
